@@ -25,6 +25,12 @@ def run(ctx):
                         continue
                     seen.add(key)
                     beh.append({"id": len(beh), "start": start, "withp": withp, "steps": steps, "free": False})
+    # a PeerConnection that never gets an SCTP association: Close / PeerConnection.Close in both orders, with and
+    # without a half-done exchange (the transport is "gone" from the start)
+    for half in (False, True):
+        for order in (["C", "P"], ["P", "C"], ["P"]):
+            beh.append({"id": len(beh), "start": "noassoc", "withp": half, "steps": [{"proc": x, "label": "seq"} for x in order],
+                        "free": False})
     nsched = len(beh)
     for j in range(40 if quick else 1000):
         beh.append({"id": len(beh), "start": ("connecting", "open")[j % 2], "withp": j % 4 < 2, "steps": [], "free": True})
